@@ -32,7 +32,7 @@ def run(chk):
         if v:
             chk.violation(v["sig"], v["desc"], dict(kind="panic"))
             return
-        raise vlib.MachineryError("C18 client-level driver failed:\n" + t2["out"][-3000:])
+        raise vlib.driver_failed("C18 client-level driver failed", t2["out"])
     res2 = json.load(open(rf2))
     for v in res2["violations"] or []:
         chk.violation(v["sig"], v["desc"], dict(kind="c18-client", detail=v))
